@@ -107,6 +107,34 @@ def source_descriptor(src):
     return unparse(c.func) if isinstance(c, ast.Call) else src.text
 
 
+def _optional_argument_validation(ctx, src):
+    """`raise TypeError/ValueError(...)` reached only through tests of keyword-only parameters that have a default, before the
+    function has called anything: the check of an optional configuration argument (never of what is being logged -- fields and
+    message types are not passed that way), surfaced at the call site like Python's own argument-binding TypeError."""
+    if src.kind != "raise" or src.detail.split(".")[-1] not in ("TypeError", "ValueError"):
+        return False
+    f = src.func
+    a = f.node.args
+    optional = {x.arg for x, d in zip(a.kwonlyargs, a.kw_defaults) if d is not None}
+    if not optional:
+        return False
+    cfg = ctx.cfg(f)
+    rn = [n for n in cfg.live if n.kind == "raise_stmt" and n.lineno == src.lineno]
+    if len(rn) != 1:
+        return False
+    guards = [t for t, lab in cfg.guards_of(rn[0]) if t.kind == "test"]
+    if not guards:
+        return False
+    pure = {"isinstance", "str", "bytes", "int", "float", "bool", "type", "len", "callable", "tuple", "list"}
+    for t in guards:
+        names = {x.id for x in ast.walk(t.exprs[0]) if isinstance(x, ast.Name)}
+        if not (names & optional) or not names <= optional | pure | {"None"}:
+            return False
+    # nothing has been called before the raise, apart from those tests
+    before = [n for n in cfg.live if n is not rn[0] and n not in guards and rn[0] in cfg.reach([n]) and any(True for c, m in calls_in_node(n))]
+    return not before
+
+
 def rule_contain(chk, only=None):
     """only: iterable of entry labels (e.g. "eliot.log_call") to restrict the rule to, for properties that depend on the
     containment of a few entry points only"""
@@ -124,6 +152,8 @@ def rule_contain(chk, only=None):
         for src, path in esc:
             key = (src.func.fq, src.kind if src.kind != "unknown" else "foreign", source_descriptor(src))
             if key in ALLOWED:
+                continue
+            if _optional_argument_validation(ctx, src):
                 continue
             if src.func.fq == "_action:log_call.logging_wrapper" and src.kind != "raise" and any(
                     w_ in source_descriptor(src) for w_ in ("signature", ".bind", "apply_defaults", "getcallargs")):
